@@ -36,6 +36,13 @@ func (p Pos) Position() Pos {
 	return p
 }
 
+// SetPosition moves the node that embeds this Pos.  The parser uses it for the
+// nodes of an expression given in a quoted attribute, which is parsed on its
+// own and then placed at the tag that contains it.
+func (p *Pos) SetPosition(pos Pos) {
+	*p = pos
+}
+
 // SoyFileNode represents a Soy file.
 type SoyFileNode struct {
 	Name string
